@@ -178,6 +178,13 @@ def _recipes():
     add("concatenate1", "common.concatenate", lambda S, np, x, y, f: S.concatenate([x, y], axis=1), lambda np, a, b, f: np.concatenate([a, b], axis=1), n=2)
     add("concat_flat", "common.concat", lambda S, np, x, y, f: S.concat([x, y], axis=None), lambda np, a, b, f: np.concatenate([a, b], axis=None), n=2)
     add("concat3", "common.concatenate", lambda S, np, x, y, f: S.concatenate([x, y, x]), lambda np, a, b, f: np.concatenate([a, b, a]), n=2)
+    # a zero-size FIRST operand: its fill still counts (the result is built with arrays[0].fill_value)
+    add("concat_empty_first0", "common.concatenate", lambda S, np, x, y, f: S.concatenate([x[:0], y]),
+        lambda np, a, b, f: np.concatenate([a[:0], b]), n=2)
+    add("concat_empty_first1", "common.concatenate", lambda S, np, x, y, f: S.concatenate([x[:, :0], y], axis=1),
+        lambda np, a, b, f: np.concatenate([a[:, :0], b], axis=1), n=2)
+    add("concat_empty_last", "common.concatenate", lambda S, np, x, y, f: S.concatenate([x, y[:0]]),
+        lambda np, a, b, f: np.concatenate([a, b[:0]]), n=2)
     add("stack0", "common.stack", lambda S, np, x, y, f: S.stack([x, y]), lambda np, a, b, f: np.stack([a, b]), n=2)
     add("stack2", "common.stack", lambda S, np, x, y, f: S.stack([x, y], axis=2), lambda np, a, b, f: np.stack([a, b], axis=2), n=2)
     add("concat_np", "SparseArray.__array_function__", lambda S, np, x, y, f: np.concatenate([x, y]), lambda np, a, b, f: np.concatenate([a, b]), n=2)
